@@ -228,6 +228,8 @@ def shards(tier):
     # (2c) the script-data sub-machine (escaped / double-escaped states) exhaustively over its own nine tokens
     for i in range(3):
         out.append({"kind": "scriptenum", "part": i, "of": 3, "len": 6 if quick else 7})
+    for i in range(2):
+        out.append({"kind": "entenum", "part": i, "of": 2})
     # (3) hypothesis
     for i in range(8):
         out.append({"kind": "hyp", "n": 4000 if quick else 150000})
@@ -279,6 +281,17 @@ def run_shard(desc, seed, tier):
                 n += 1
         acc.extra["enumerated"] = n
         acc.exhaustive = True
+    elif kind == "entenum":
+        # EVERY name of the standard's table and every ';'-less stem that is not in it (those must stay literal), in text, in an
+        # attribute value and in RCDATA: complete, so that detection does not hang on which names a sampler happens to draw
+        n = 0
+        for k, name in enumerate(_entity_atoms()):
+            if k % desc["of"] != desc["part"]:
+                continue
+            for text, state, last in (("&%s z" % name, "data", None), ("<a b=\"&%s \" c=&%s>" % (name, name), "data", None), ("x&%s<" % name, "rcdata", "title")):
+                one({"text": text, "state": state, "last": last, "cdata": False})
+                n += 1
+        acc.extra["entity_cases"] = n
     elif kind == "scriptenum":
         SA = ["<!--", "-->", "<script", "</script>", " ", ">", "-", "x", "<"]
         n = 0
